@@ -120,3 +120,36 @@ def respell(text, rnd, p=0.5):
             return rnd.choice(table[w])
         return w
     return rx.sub(f, text)
+
+
+# ---------------------------------------------------------------- very long files
+FAR_THRESHOLDS = [2 ** 15, 2 ** 16, 2 ** 23, 2 ** 24]
+
+
+def far_pad(rnd, threshold=None, filler=None):
+    """filler text of about <threshold> lines (blank / comment / blank-with-spaces lines) so that what follows stands on a
+    line number that needs more than 15, 16, 23 or 24 bits; -> (text, number of newlines)"""
+    t = threshold or rnd.choice(FAR_THRESHOLDS)
+    n = t - rnd.randint(0, 3)
+    f = filler if filler is not None else rnd.choice(["\n", "\n", "\n", " \n", "// c\n"])
+    if t > 2 ** 23:
+        f = "\n"
+    return f * n, n
+
+
+def far_program(rnd, lines, thresholds=None):
+    """a one-statement-per-line program (list of token lists) laid out with a far pad before one of its lines, optionally
+    with its tail moved into an included file that has a far pad of its own; -> (files, main)"""
+    ths = thresholds or FAR_THRESHOLDS
+    cut = rnd.randrange(0, len(lines))
+    pad, _ = far_pad(rnd, rnd.choice(ths))
+    head = "\n".join(" ".join(l) for l in lines[:cut])
+    tail = "\n".join(" ".join(l) for l in lines[cut:])
+    if rnd.random() < 0.5 or cut == 0:
+        return {"main": head + ("\n" if head else "") + pad + tail}, "main"
+    # the included file carries the pad: its lines count from 1 again, the includer's continue after the directive
+    cut2 = rnd.randrange(cut, len(lines))
+    mid = "\n".join(" ".join(l) for l in lines[cut:cut2])
+    tail = "\n".join(" ".join(l) for l in lines[cut2:])
+    pad2, _ = far_pad(rnd, rnd.choice(ths[:3]))
+    return {"main": head + "\n" + pad2 + 'include "far"\n' + tail, "far": pad + mid}, "main"
